@@ -8,6 +8,10 @@ from vflib.ref import opener
 
 PROP = 'C13'
 RULE = (
+    '(i) bounded-exhaustive: the COMPLETE decision trees of small games '
+    '(2-3 players, stacks of 1-8 chips, hold\'em NL/FL, PLO, Kuhn, razz, '
+    'single draw; every fold/call/raise amount/discard/show-or-muck '
+    'choice) are walked under the same monitors (vflib.explore); (ii) '
     'seeded random hands on every blind/straddle/late-post/button-blind '
     'layout (incl. blinds shorter than the stack, heads-up, dead seats) and '
     'on the stud games with up-cards dealt explicitly from 2-4 ranks so that '
@@ -34,7 +38,8 @@ REQUIRED = ('openings_checked', 'stud_low_card_openings',
             'position_later_round', 'opener_passed_clockwise',
             'rank_ties_broken_by_suit', 'exposed_hand_ties',
             'headsup_openings', 'straddle_or_post_layouts',
-            'bring_in_posters_checked', 'fractional_blind_openings')
+            'bring_in_posters_checked', 'fractional_blind_openings',
+            'trees_completed', 'explored_nodes')
 
 BETTING = ('Folding', 'CheckingOrCalling', 'BringInPosting',
            'CompletionBettingOrRaisingTo')
@@ -169,6 +174,8 @@ def signature(ctx):
 def run_shard(seed, shard, of, tier, deadline):
     return hist.run_history_shard(
         PROP, seed, shard, of, tier, deadline, cases=CASES,
+        explore_s={'quick': 8, 'thorough': 100},
+        explore_nodes={'quick': 2500, 'thorough': 40000},
         gen_kwargs=gen_kwargs, make_monitors=make_monitors,
         nontrivial=nontrivial, pol_tweak=pol_tweak, cfg_filter=cfg_filter,
         signature=signature)
